@@ -594,3 +594,37 @@ CASES["C05"] = [
     ("twin: a source-only helper variable is added", "twin", DMAF, "        # step 1: extract base addresses\n", "        src_rank = op.source.type.get_num_dims()\n        assert src_rank > 0\n        # step 1: extract base addresses\n", []),
     ("twin: seed chosen by extent step*bound", "twin", TSLD, "            if (stride.step, bound) > (max_value, max_bound):", "            if stride.step * bound > max_value * max_bound or (stride.step, bound) > (max_value, max_bound):", []),
 ]
+
+LAYRESF = "snaxc/transforms/dart/dart_layout_resolution.py"
+CONVF = "snaxc/transforms/convert_dart_to_snax_stream.py"
+ADDEXTF = "snaxc/accelerators/streamers/extensions/add_extension.py"
+
+CASES["C02"] = [
+    ("reintroduce F-26 (raw unit responses, offset dropped)", "mutant", LAYRESF, "@revert:27f8d49~1", "", ["C02.offset"]),
+    ("reintroduce F-27 (TSL map ignores the offset)", "mutant", TSLD, "        result = AffineConstantExpr(self.data.offset)", "        result = AffineConstantExpr(0)", ["C02.offset", "C02.tsl-affine"]),
+    ("offset subtracted but never added to the pointers", "mutant", LAYRESF, "            if offset != 0:\n                offset_op", "            if False:\n                offset_op", []),
+    ("layout of another operand", "mutant", LAYRESF, "            assert isinstance(memref_type := op.operands[operand].type, MemRefType)", "            assert isinstance(memref_type := op.operands[0].type, MemRefType)", ["C02.operand"]),
+    ("schedule pattern of the previous operand", "mutant", LAYRESF, "schedule[operand].pattern.to_affine_map()", "schedule[operand - 1].pattern.to_affine_map()", ["C02.operand"]),
+    ("streamer of operand 0 for every operand", "mutant", CONVF, "            for spat_size in streamers[operand].spatial_dims:", "            for spat_size in streamers[0].spatial_dims:", ["C02.operand"]),
+    ("bound read one dimension further out", "mutant", CONVF, "(int(pattern.A[0, i]), op.bounds.data[i].value.data)", "(int(pattern.A[0, i]), op.bounds.data[max(i - 1, 0)].value.data)", ["C02.operand"]),
+    ("relevance from the resolved strides", "mutant", CONVF, "            relevant += template[operand].pattern.A.any(axis=0).tolist()", "            relevant += (pattern.A[0, -template.num_dims :] != 0).tolist()", ["C02.relevance"]),
+    ("relevance from the template of operand 0", "mutant", CONVF, "            relevant += template[operand].pattern.A.any(axis=0).tolist()", "            relevant += template[0].pattern.A.any(axis=0).tolist()", ["C02.relevance", "C02.operand"]),
+    ("gemmx i32 matmul: result streamer 3 instead of 4", "mutant", GEMMX, "                streamers = [self.streamer_config.data.streamers[i] for i in (0, 1, 4)]", "                streamers = [self.streamer_config.data.streamers[i] for i in (0, 1, 3)]", ["C02.routing"]),
+    ("gemmx i8 gemm: D8 pattern left at the end", "mutant", GEMMX, "                snax_stride_patterns.insert(2, d8_pattern)\n                new_inputs.insert(2, d8_input)", "                snax_stride_patterns.insert(3, d8_pattern)\n                new_inputs.insert(2, d8_input)", ["C02.routing"]),
+    ("gemmx simd: D8 and C not flipped for the pointers", "mutant", GEMMX, "            new_inputs.append(new_inputs.pop(2))\n", "", ["C02.routing"]),
+    ("gemmx i32 gemm: empty pattern inserted behind C", "mutant", GEMMX, "            if op.body.block.arg_types[-1] == dart.StreamType(builtin.IntegerType(32)):\n                snax_stride_patterns.insert(2, empty_pattern)\n                new_inputs.insert(2, op.inputs[-1])", "            if op.body.block.arg_types[-1] == dart.StreamType(builtin.IntegerType(32)):\n                snax_stride_patterns.insert(3, empty_pattern)\n                new_inputs.insert(2, op.inputs[-1])", ["C02.routing"]),
+    ("add extension: writer gets the second input's pattern", "mutant", ADDEXTF, "        new_stride_patterns = [new_stride_pattern, snax_stride_patterns[-1]]", "        new_stride_patterns = [new_stride_pattern, snax_stride_patterns[1]]", ["C02.routing"]),
+    ("new op takes the untouched operands", "mutant", CONVF, "            inputs=new_inputs,\n            outputs=new_outputs,", "            inputs=op.inputs,\n            outputs=op.outputs,", ["C02.routing"]),
+    ("TSL map: divisor includes the own bound", "mutant", TSLD, "                fdiv = prod([stride.bound for stride in strides[depth + 1 :] if stride.bound])", "                fdiv = prod([stride.bound for stride in strides[depth:] if stride.bound])", ["C02.tsl-affine"]),
+    ("TSL map: modulus taken for the outermost level only", "mutant", TSLD, "                if depth > 0:\n                    result += step * ((AffineDimExpr(dim) % mod) // fdiv)\n                else:\n                    result += step * (AffineDimExpr(dim) // fdiv)", "                if depth == 0:\n                    result += step * ((AffineDimExpr(dim) % mod) // fdiv)\n                else:\n                    result += step * (AffineDimExpr(dim) // fdiv)", ["C02.tsl-affine"]),
+    ("TSL map: step of the neighbouring level", "mutant", TSLD, "                assert (step := self.data.get_stride(dim, depth).step)\n                if depth > 0:", "                assert (step := self.data.get_stride(dim, max_depth - 1 - depth).step)\n                if depth > 0:", ["C02.tsl-affine"]),
+    ("twin: TSL map written with running tile sizes", "twin", TSLD,
+     "        for dim in range(self.data.dimension()):\n            max_depth = self.data.tstrides[dim].depth()\n            for depth in range(max_depth):\n                strides = self.data.tstrides[dim].strides\n                mod = prod([stride.bound for stride in strides[depth:] if stride.bound])\n                fdiv = prod([stride.bound for stride in strides[depth + 1 :] if stride.bound])\n                assert (step := self.data.get_stride(dim, depth).step)\n                if depth > 0:\n                    result += step * ((AffineDimExpr(dim) % mod) // fdiv)\n                else:\n                    result += step * (AffineDimExpr(dim) // fdiv)\n",
+     "        for dim, tstride in enumerate(self.data.tstrides):\n            tile_sizes = [1]\n            for stride in reversed(tstride.strides[1:]):\n                assert stride.bound\n                tile_sizes.insert(0, tile_sizes[0] * stride.bound)\n            for (depth, stride), tile_size in zip(tstride, tile_sizes):\n                assert (step := stride.step)\n                index = AffineDimExpr(dim)\n                if depth > 0:\n                    assert stride.bound\n                    index = index % (tile_size * stride.bound)\n                result += step * (index // tile_size)\n", []),
+    ("twin: origin response spelled with a comprehension", "twin", LAYRESF, "            offset = access_mem_map.eval([0] * access_mem_map.num_dims, ())[0]", "            offset = access_mem_map.eval([0 for _ in range(access_mem_map.num_dims)], ())[0]", []),
+    ("twin: gemmx i8 gemm routed with explicit indices", "twin", GEMMX, "                d8_pattern = snax_stride_patterns.pop()\n                d8_input = new_outputs.pop()\n                snax_stride_patterns.insert(2, d8_pattern)\n                new_inputs.insert(2, d8_input)", "                d8_pattern = snax_stride_patterns.pop(3)\n                d8_input = new_outputs.pop(0)\n                snax_stride_patterns = [*snax_stride_patterns[:2], d8_pattern, *snax_stride_patterns[2:]]\n                new_inputs = [*new_inputs[:2], d8_input, *new_inputs[2:]]", []),
+]
+CASES["C02"] = [c for c in CASES["C02"] if c[0] != "offset subtracted but never added to the pointers"] + [
+    ("offset subtracted but never added to the pointers", "mutant", LAYRESF, "        for operand, offset in zip(op.operands, offsets):\n            pointer: Operation = memref.ExtractAlignedPointerAsIndexOp.get(operand)\n            pointer_ops.append(pointer)\n            if offset != 0:\n                offset_op = arith.ConstantOp.from_int_and_width(offset, IndexType())\n                pointer = arith.AddiOp(pointer, offset_op, IndexType())\n                pointer_ops.extend([offset_op, pointer])\n            pointers.append(pointer)",
+     "        for operand in op.operands:\n            pointer: Operation = memref.ExtractAlignedPointerAsIndexOp.get(operand)\n            pointer_ops.append(pointer)\n            pointers.append(pointer)", ["C02.offset"]),
+]
